@@ -13,6 +13,15 @@ from .logging import logger
 __all__ = ["RVData"]
 
 
+def _masked_to_nan(x):
+    """A masked (missing) entry is not an observation: turn it into NaN, so that
+    it is treated like any other non-finite value (dropped with ``clean=True``)
+    instead of entering with the fill data under the mask."""
+    if getattr(x, "mask", None) is None:
+        return x
+    return x.astype(float).filled(np.nan)
+
+
 class RVData:
     """
     Time-domain radial velocity measurements for a single target.
@@ -47,12 +56,12 @@ class RVData:
             _t_bmjd = t.tcb.mjd
         else:
             _t_bmjd = np.atleast_1d(t)
-        self._t_bmjd = _t_bmjd
+        self._t_bmjd = _masked_to_nan(_t_bmjd)
 
-        self.rv = u.Quantity(np.atleast_1d(rv))
+        self.rv = u.Quantity(np.atleast_1d(_masked_to_nan(rv)))
 
         # Figure out what kind of error is specified
-        self.rv_err = u.Quantity(np.atleast_1d(rv_err))
+        self.rv_err = u.Quantity(np.atleast_1d(_masked_to_nan(rv_err)))
 
         if self.rv_err.ndim == 1:
             self._has_cov = False
@@ -315,12 +324,7 @@ class RVData:
                 )
 
         def _to_quantity(col):
-            # a masked (missing) entry is not an observation: make it NaN, so
-            # that it is dropped like any other non-finite value instead of
-            # entering with the column's fill data
-            if hasattr(col, "mask") and np.any(col.mask):
-                col = col.astype(float).filled(np.nan)
-            return u.Quantity(col)
+            return u.Quantity(_masked_to_nan(col))
 
         rv_data = _to_quantity(tbl[lwr_to_col[best_rv_name]])
 
